@@ -335,9 +335,9 @@ def make_vcard_data(name, displayname, email=None, phone=None, fax=None,
         if not isinstance(birthday, str) or not _looks_like_datetime(birthday):
             raise ValueError('"birthday" does not seem to be a valid date or date/time representation')
         data.append(f'BDAY:{birthday}')
-    if lat and not lng or lng and not lat:
+    if (lat is None) != (lng is None):
         raise ValueError('Incomplete geo information, please specify latitude and longitude.')
-    if lat and lng:
+    if lat is not None and lng is not None:
         data.append(f'GEO:{lat};{lng}')
     if source:
         data.append(f'SOURCE:{escape(source)}')
